@@ -102,6 +102,9 @@ pub struct Families {
     pub cenum_block_only: bool,
     /// pinned: two comments around every token of the harness's own corpus files
     pub comment_pairs: bool,
+    /// pinned: the canonical text of every small corpus file re-spaced (compact / doubled blanks
+    /// inside lines) at the critical widths of its lines
+    pub respace: bool,
 }
 
 pub const CT_HEADERS: [(&str, &str); 10] = [
@@ -221,6 +224,9 @@ impl Work {
         }
         if fam.comment_pairs && !only_seeded {
             n += self.own_files().len() * PAIR_KINDS.len();
+        }
+        if fam.respace && !only_seeded {
+            n += self.corpus.len();
         }
         n
     }
@@ -606,20 +612,20 @@ impl Work {
             }
             i -= seeded / 4;
         }
-        if fam.collapse_templates && !only_seeded && i >= CT_HEADERS.len() * CT_BODIES.len() {
-            i -= CT_HEADERS.len() * CT_BODIES.len();
+        if !only_seeded && (!fam.collapse_templates || i >= CT_HEADERS.len() * CT_BODIES.len()) {
+            if fam.collapse_templates {
+                i -= CT_HEADERS.len() * CT_BODIES.len();
+            }
             if fam.comment_pairs {
                 let own = self.own_files();
                 if i < own.len() * PAIR_KINDS.len() {
                     self.comment_pair_item(ctx, own[i / PAIR_KINDS.len()], i % PAIR_KINDS.len(), fam.cenum_crlf, f);
+                    return;
                 }
+                i -= own.len() * PAIR_KINDS.len();
             }
-            return;
-        }
-        if !fam.collapse_templates && fam.comment_pairs && !only_seeded {
-            let own = self.own_files();
-            if i < own.len() * PAIR_KINDS.len() {
-                self.comment_pair_item(ctx, own[i / PAIR_KINDS.len()], i % PAIR_KINDS.len(), fam.cenum_crlf, f);
+            if fam.respace && i < self.corpus.len() {
+                self.respace_item(ctx, i, f);
             }
             return;
         }
@@ -726,6 +732,104 @@ pub const PAIR_KINDS: [(&str, &str, bool, &str); 5] = [
 impl Work {
     fn own_files(&self) -> Vec<usize> {
         self.corpus.iter().enumerate().filter(|(_, f)| f.name.starts_with("own/")).map(|(i, _)| i).collect()
+    }
+
+    /// W-respace: the canonical (already formatted) text of a small corpus file with the blanks
+    /// inside its lines removed where the tokens allow it, or doubled; line structure untouched.
+    /// Evaluated at the critical widths of the canonical text: a layout decision taken on the
+    /// text as written instead of the text as it will be printed shows up as a second pass that
+    /// differs from the first.
+    fn respace_item(&self, ctx: &mut Ctx, fi: usize, f: &mut dyn FnMut(&mut Ctx, &Eval)) {
+        use crate::lex;
+        let file = &self.corpus[fi];
+        if file.text.len() > 6000 {
+            return;
+        }
+        let base = Cfg::with_syntax(file.syntax);
+        let first = fmt::run(&file.text, &base, None, false, false);
+        if first.ticks > 4000 {
+            return;
+        }
+        let canon = match first.result {
+            Ok(t) => t,
+            Err(_) => return,
+        };
+        let lx = match lex::lex(&canon) {
+            Ok(l) => l,
+            Err(_) => return,
+        };
+        let ts0 = lex::token_stream(&lx, base.int_subtype());
+        let mut variants: Vec<(&str, String)> = Vec::new();
+        for mode in ["compact", "wide"] {
+            let mut out = String::with_capacity(canon.len() * 2);
+            let mut prev_tok: Option<&str> = None;
+            let n = lx.items.len();
+            for (k, it) in lx.items.iter().enumerate() {
+                match it {
+                    lex::Item::T(t) => {
+                        let s = &canon[t.start..t.end];
+                        out.push_str(s);
+                        prev_tok = Some(s);
+                    }
+                    lex::Item::V(tr) => {
+                        let s = &canon[tr.start..tr.end];
+                        let next_is_tok = matches!(lx.items.get(k + 1), Some(lex::Item::T(_)));
+                        if tr.kind == lex::TrivKind::Ws && !s.contains('\n') && prev_tok.is_some() && next_is_tok && k + 1 < n {
+                            let next = match &lx.items[k + 1] {
+                                lex::Item::T(t2) => &canon[t2.start..t2.end],
+                                _ => "",
+                            };
+                            if mode == "compact" {
+                                if crate::gen::needs_sep(prev_tok.unwrap_or(""), next) {
+                                    out.push(' ');
+                                }
+                            } else {
+                                out.push_str("   ");
+                            }
+                        } else {
+                            out.push_str(s);
+                            if tr.kind != lex::TrivKind::Ws {
+                                prev_tok = None;
+                            }
+                            if s.contains('\n') {
+                                prev_tok = None;
+                            }
+                        }
+                    }
+                }
+            }
+            // the re-spaced text must be the same program
+            match lex::lex(&out) {
+                Ok(l2) if lex::token_stream(&l2, base.int_subtype()) == ts0 && fmt::parses(&out, &base) => variants.push((mode, out)),
+                _ => ctx.count("respace.rejected"),
+            }
+        }
+        let quick = ctx.quick();
+        // every line of the harness's own files and (thorough) of every small file; else the longest three
+        let own = file.name.starts_with("own/");
+        let mut widths = critical_widths(&canon, base.indent_width, if own || !quick { 400 } else { 3 });
+        widths.push(120);
+        for (mode, text) in variants {
+            for w in &widths {
+                if *w < 12 {
+                    continue;
+                }
+                let mut c = base.clone();
+                c.column_width = *w;
+                ctx.count("respace.cases");
+                f(
+                    ctx,
+                    &Eval {
+                        id: format!("respace:{}:{mode}:w{w}", file.name),
+                        src: text.clone(),
+                        cfg: c,
+                        range: None,
+                        pinned: true,
+                        presig: None,
+                    },
+                );
+            }
+        }
     }
 
     /// W-pairs: two comments around every token of one of the harness's own corpus files: the
